@@ -317,6 +317,11 @@ func c05Corrupt(t *rapid.T, data []byte) string {
 	if err != nil {
 		t.Fatalf("harness: %v", err)
 	}
+	return c05CorruptWith(t, data, vf)
+}
+
+// c05CorruptWith damages data; vf describes the file before any damage.
+func c05CorruptWith(t *rapid.T, data []byte, vf *vformat.File) string {
 	put32 := func(off uint32, v uint32) {
 		if int(off)+4 <= len(data) {
 			binary.LittleEndian.PutUint32(data[off:], v)
@@ -337,7 +342,13 @@ func c05Corrupt(t *rapid.T, data []byte) string {
 		r := vf.Records[rapid.IntRange(0, len(vf.Records)-1).Draw(t, label+"Rec")]
 		return r.Off + uint32(rapid.SampledFrom([]int{0, 0, 0, 8, 16, 32}).Draw(t, label+"Delta"))
 	}
-	kind := rapid.SampledFrom([]string{"limit", "head", "head", "next", "next", "next-self", "next-cycle", "namelen", "hdrlen", "bytes", "truncate", "truncate-page", "zero"}).Draw(t, "damage")
+	kind := rapid.SampledFrom([]string{"limit", "head", "head", "next", "next", "next-self", "next-cycle", "namelen", "hdrlen", "bytes", "truncate", "truncate-page", "truncate-ospage", "truncate-ospage", "zero", "two-fields"}).Draw(t, "damage")
+	if kind == "two-fields" {
+		// two of the single-field damages at once
+		a := c05CorruptWith(t, data, vf)
+		b := c05CorruptWith(t, data, vf)
+		return a + "+" + b
+	}
 	switch kind {
 	case "limit":
 		put32(vf.HdrLen, hostile("limit"))
@@ -439,6 +450,10 @@ func TestVerifC05Corrupt(t *testing.T) {
 			data = data[:rapid.IntRange(0, len(data)).Draw(t, "truncTo")]
 		case "truncate-page":
 			data = data[:rapid.IntRange(0, len(data)/vformat.Page).Draw(t, "truncPages")*vformat.Page]
+		case "truncate-ospage":
+			// a multiple of the operating system's page size that is not a multiple of the file's 16 KiB pages:
+			// the mapping ends exactly at the end of the file, in the middle of whatever record lies there
+			data = data[:rapid.IntRange(1, len(data)/4096).Draw(t, "truncOSPages")*4096]
 		}
 		if err := os.WriteFile(path, data, 0666); err != nil {
 			t.Fatal(err)
